@@ -390,6 +390,8 @@ def run_rules(repo: Repo, propmod, tier: str, only_rule: str = None) -> Ctx:
                 # the violation already names a construct; the rest of this rule is undecided
                 ctx.note("%s: analysis stopped after the reported violation(s): %s" % (rule.id, str(e).splitlines()[0]))
                 continue
+            # an undecided rule ends the run (exit 2): the rules after it were written for the shapes this one could not recognise, and running
+            # them on would turn "cannot decide" into reports about code that may be perfectly right
             raise
         except RecursionError as e:
             raise AnalysisError("%s: recursion limit in analyser (%s)" % (rule.id, e))
@@ -546,7 +548,10 @@ def main_run(propmod, tier: str, seed: int, replay: str = None, do_selftest: boo
     if os.path.isdir(REPLAY_DIR):
         for fn in os.listdir(REPLAY_DIR):
             if fn.startswith(propmod.ID + "-"):
-                os.unlink(os.path.join(REPLAY_DIR, fn))
+                try:
+                    os.unlink(os.path.join(REPLAY_DIR, fn))
+                except OSError:
+                    pass   # a concurrent run of the same property on another tree removed it
 
     for inst in known_hit:
         f = known[inst.ident()]
